@@ -2019,6 +2019,9 @@ def _counter_while_as_for(st: ast.While, frame):
     """The `for i in range(a, n)` loop a counting while loop abbreviates (i = a before it, `while i < n`, `i += 1` as last statement, i not
     assigned elsewhere in the body, no continue / else), or None."""
     t = st.test
+    down = _descending_while_as_for(st, frame)
+    if down is not None:
+        return down
     if st.orelse or not (isinstance(t, ast.Compare) and len(t.ops) == 1 and isinstance(t.ops[0], ast.Lt) and isinstance(t.left, ast.Name)) or not st.body:
         return None
     i = t.left.id
@@ -2043,6 +2046,63 @@ def _counter_while_as_for(st: ast.While, frame):
     f = ast.For(target=ast.Name(id=i, ctx=ast.Store()), iter=ast.Call(func=ast.Name(id="range", ctx=ast.Load()),
                                                                       args=([ast.Constant(value=int(c))] if int(c) != 0 else []) + [t.comparators[0]], keywords=[]),
                 body=body, orelse=[])
+    ast.copy_location(f, st)
+    ast.fix_missing_locations(f)
+    return f
+
+
+def _descending_while_as_for(st: ast.While, frame):
+    """`i = len(X) - 1; while i >= 0: ... X[i] ...; i -= 1` (i used only to subscript X) is `for x in X[::-1]: ... x ...`."""
+    t = st.test
+    if st.orelse or not st.body or not (isinstance(t, ast.Compare) and len(t.ops) == 1 and isinstance(t.left, ast.Name) and isinstance(t.comparators[0], (ast.Constant, ast.UnaryOp))):
+        return None
+    try:
+        bound = ast.literal_eval(t.comparators[0])
+    except ValueError:
+        return None
+    if not ((isinstance(t.ops[0], ast.GtE) and bound == 0) or (isinstance(t.ops[0], ast.Gt) and bound == -1)):
+        return None
+    i = t.left.id
+    last = st.body[-1]
+    if not (isinstance(last, ast.AugAssign) and isinstance(last.target, ast.Name) and last.target.id == i and isinstance(last.op, ast.Sub)
+            and isinstance(last.value, ast.Constant) and last.value.value == 1):
+        return None
+    import copy
+    body = copy.deepcopy(st.body[:-1])  # (rewritten below; the function's own tree stays as it is)
+    if not body:
+        return None
+    subs = {id(n.slice): n for s_ in body for n in ast.walk(s_) if isinstance(n, ast.Subscript) and isinstance(n.ctx, ast.Load) and isinstance(n.slice, ast.Name) and n.slice.id == i
+            and isinstance(n.value, ast.Name)}
+    seqs = {n.value.id for n in subs.values()}
+    if len(seqs) != 1:
+        return None
+    X = next(iter(seqs))
+    for n in [x for s_ in body for x in ast.walk(s_)]:
+        if isinstance(n, (ast.Continue, ast.Break)):
+            return None
+        if isinstance(n, ast.Name) and n.id == i and id(n) not in subs:
+            return None
+        if isinstance(n, ast.Name) and n.id == X and isinstance(n.ctx, (ast.Store, ast.Del)):
+            return None
+        if isinstance(n, ast.Call) and isinstance(n.func, ast.Attribute) and isinstance(n.func.value, ast.Name) and n.func.value.id == X \
+                and n.func.attr in ("append", "pop", "popleft", "extend", "clear", "insert", "remove", "sort", "reverse"):
+            return None
+    pre, xs = frame.lookup(i), frame.lookup(X)
+    if pre is None or xs is None or pre != T.sub(T.mk_call("len", [xs]), T.ONE):
+        return None
+    el = f"__{i}_item"
+
+    class _R(ast.NodeTransformer):
+        def visit_Subscript(self, n):
+            if id(n.slice) in subs:
+                return ast.copy_location(ast.Name(id=el, ctx=ast.Load()), n)
+            return self.generic_visit(n)
+    new_body = []
+    for s_ in body:
+        new_body.append(_R().visit(s_))
+    f = ast.For(target=ast.Name(id=el, ctx=ast.Store()),
+                iter=ast.Subscript(value=ast.Name(id=X, ctx=ast.Load()), slice=ast.Slice(lower=None, upper=None, step=ast.UnaryOp(op=ast.USub(), operand=ast.Constant(value=1))), ctx=ast.Load()),
+                body=new_body, orelse=[])
     ast.copy_location(f, st)
     ast.fix_missing_locations(f)
     return f
